@@ -1,6 +1,7 @@
 import Sgz.Proofs.Fetch
 import Sgz.Model.Container
 import Sgz.Proofs.HeaderReads
+import Sgz.Proofs.Lru
 /-!
 # C07 — I/O proportionality
 
@@ -115,5 +116,52 @@ theorem structured_header_reads (h : HeaderReads.HFile) (il : Nat) (st : HeaderR
       ∧ (HeaderReads.distinctArrays h).Nodup
       ∧ ∀ k, k ∈ HeaderReads.distinctArrays h ↔ ∃ f, f < h.tbl.length ∧ HeaderReads.arrayOf h f = some k :=
   HeaderReads.structured_header_io h il st t hs h3 ht
+
+/-! ### diagonals: every chunk is fetched once, whatever the size of the reader's chunk cache
+
+A diagonal is read trace by trace, each trace through the reader's LRU of decompressed chunks (`Model/Lru`).  The chunks
+along a diagonal are visited in monotone order (inline chunk never decreasing; crossline chunk never decreasing on a
+correlated, never increasing on an anticorrelated diagonal), so a chunk that has been left is never needed again: an
+LRU with a single slot already keeps every chunk — hence every byte — from being fetched twice within the call.  The
+default capacity (`get_chunk_cache_size`) is at least 2; a caller may pass any `chunk_cache_size ≥ 1`. -/
+
+theorem diagonal_fetches_each_chunk_once (g : Geo) (cap : Nat) (hcap : 1 ≤ cap) (cd : Int) (lo hi : Nat) :
+    (Lru.fetched cap [] (Lru.cdKeys g cd lo hi)).Nodup :=
+  Lru.fetched_nodup cap hcap Lru.leCd Lru.leCd_antisymm _ (Lru.cdKeys_pairwise g cd lo hi)
+
+theorem antidiagonal_fetches_each_chunk_once (g : Geo) (cap : Nat) (hcap : 1 ≤ cap) (ad lo hi : Nat) :
+    (Lru.fetched cap [] (Lru.adKeys g ad lo hi)).Nodup :=
+  Lru.fetched_nodup cap hcap Lru.leAd Lru.leAd_antisymm _ (Lru.adKeys_pairwise g ad lo hi)
+
+/-- with the default capacity -/
+theorem diagonal_fetches_each_chunk_once_default (g : Geo) (cd : Int) (lo hi : Nat) :
+    (Lru.fetched (Lru.chunkCacheSize g.NB0 g.NB1) [] (Lru.cdKeys g cd lo hi)).Nodup :=
+  diagonal_fetches_each_chunk_once g _ (by have := (Lru.chunkCacheSize_ge g.NB0 g.NB1).2; omega) cd lo hi
+
+/-- the trace index the reader computes for the `d`-th trace of a diagonal denotes the grid position whose chunk key the
+theorems above follow: `index = il · n1 + xl`, and `get_trace` recovers `(il, xl)` from it -/
+theorem diagonal_trace_position (n1 : Nat) (cd : Int) (d : Nat) (h : (Lru.cdPoint cd d).2 < n1) :
+    (if cd ≥ 0 then ((d : Int) + cd) * n1 + d else (d : Int) * n1 + d - cd)
+        = (((Lru.cdPoint cd d).1 * n1 + (Lru.cdPoint cd d).2 : Nat) : Int)
+    ∧ ((Lru.cdPoint cd d).1 * n1 + (Lru.cdPoint cd d).2) / n1 = (Lru.cdPoint cd d).1
+    ∧ ((Lru.cdPoint cd d).1 * n1 + (Lru.cdPoint cd d).2) % n1 = (Lru.cdPoint cd d).2 := by
+  refine ⟨?_, Lru.position_of_index n1 _ _ h⟩
+  rw [Lru.cd_index]; push_cast; rfl
+
+theorem antidiagonal_trace_position (n1 ad d : Nat) (hd : if ad < n1 then d ≤ ad else d + 1 ≤ n1)
+    (h : (Lru.adPoint n1 ad d).2 < n1) :
+    (if (ad : Int) < n1 then (ad : Int) + d * ((n1 : Int) - 1) else ((ad : Int) - n1 + 1 + d) * n1 + ((n1 : Int) - d - 1))
+        = (((Lru.adPoint n1 ad d).1 * n1 + (Lru.adPoint n1 ad d).2 : Nat) : Int)
+    ∧ ((Lru.adPoint n1 ad d).1 * n1 + (Lru.adPoint n1 ad d).2) / n1 = (Lru.adPoint n1 ad d).1
+    ∧ ((Lru.adPoint n1 ad d).1 * n1 + (Lru.adPoint n1 ad d).2) % n1 = (Lru.adPoint n1 ad d).2 := by
+  refine ⟨?_, Lru.position_of_index n1 _ _ h⟩
+  rw [Lru.ad_index n1 ad d hd]; push_cast; rfl
+
+-- non-vacuity: a 9 x 9 grid of 4 x 4 chunks, main diagonal, one slot: three chunks, each once; without monotonicity a
+-- single slot does fetch twice
+example : Lru.fetched 1 [] (Lru.cdKeys ⟨9, 9, 8, 4, 4, 256, 64⟩ 0 0 9) = [(0, 0), (4, 4), (8, 8)] := by decide
+example : Lru.fetched 2 [] (Lru.adKeys ⟨9, 9, 8, 4, 4, 256, 64⟩ 8 0 9) = [(0, 8), (0, 4), (4, 4), (4, 0), (8, 0)] := by decide
+example : ¬ (Lru.fetched 1 [] [1, 2, 1]).Nodup := by decide
+example : Lru.chunkCacheSize 3 7 = 8 ∧ Lru.chunkCacheSize 1 1 = 2 ∧ Lru.chunkCacheSize 0 5 = 2 := by decide
 
 end Sgz.Props.C07
